@@ -10,13 +10,14 @@ from harness import polyid
 W = 'w_Rhumb'
 AREA = '@_ZN13GeographicLib5Rhumb10AreaCoeffsEv'
 ASSUMPTIONS = [
+    'divided-difference obligations (DAuxLatitude::Datan, Dasinh): atan and asinh are uninterpreted; each branch is compared with the divided difference it stands for, the addition theorem of atan is admitted only for x y > -1 (where it holds), that of asinh everywhere; the overflow guards (isinf) are outside the real model; Dsn was tried and z3 returned unknown (not claimed)',
     '[REAL] obligations: exact real meaning of the floating-point operations; rounding/NaN/overflow outside the claim',
     'Rhumb::AreaCoeffs executed on an object with symbolic _n, _exact = false and a 6-element coefficient vector; oracle: the order-8 table of the same function (GEOGRAPHICLIB_RHUMBAREA_ORDER=8) truncated — an independent second copy, not first principles',
     'accuracy of s12/azi12/S12, the divided-difference formulas, pole handling, direct/inverse consistency and the DST fit of the exact area are outside this claim (DESIGN.md §4)',
 ]
 
 def prepare(ctx):
-    H.ir_module(ctx, W); H.ir_module(ctx, W, defines=('GEOGRAPHICLIB_RHUMBAREA_ORDER=8',)); H.native(ctx, W)
+    H.ir_module(ctx, W); H.ir_module(ctx, W, defines=('GEOGRAPHICLIB_RHUMBAREA_ORDER=8',)); H.native(ctx, W); H.ir_module(ctx, WD); H.native(ctx, WD)
 
 def area_terms(m, nsym, L):
     offs = H.offsets(m, 'Rhumb'); ex = rsym.Exec(m)
@@ -38,11 +39,76 @@ def ob_area(ctx):
     return polyid.check(ctx, 'Rhumb::_pP', [(l, code[l]) for l in range(6)], specs, [n], [n > -1, n < 1], nat, specq=specq,
                         functions=['GeographicLib::Rhumb::AreaCoeffs', 'GeographicLib::Math::polyval'])
 
+# ---- divided differences of DAuxLatitude (used by the rhumb solver): each branch equals the divided difference it stands for, and the
+#      addition-formula branch of Datan is entered only where the formula is valid
+WD = 'w_DAux'
+DATAN = '@_ZN13GeographicLib12DAuxLatitude5DatanEdd'; DASINH = '@_ZN13GeographicLib12DAuxLatitude6DasinhEdd'; DSN = '@_ZN13GeographicLib12DAuxLatitude3DsnEdd'
+def ob_divdiff(ctx, which):
+    import z3
+    from vfw import rsym
+    m = H.ir_module(ctx, WD); x, y = z3.Real('x'), z3.Real('y')
+    calls = []
+    def uf(name):
+        def h(ex, a, mem):
+            mem.setdefault('!calls', []).append((name, a[0])); return ex.UF(name, 1)(a[0])
+        return h
+    fn = {'Datan': DATAN, 'Dasinh': DASINH, 'Dsn': DSN}[which]
+    ex = rsym.Exec(m, libm={'atan': uf('atan'), 'asinh': uf('asinh')}, path_cap=64)
+    paths = ex.run_all(fn, lambda ex, mem: [x, y])
+    q = 0; ss = 0.0; bad = None; unk = []; ncl = 0
+    hx, hy = z3.Real('hx_spec'), z3.Real('hy_spec'); hyp = [hx > 0, hy > 0, hx * hx == 1 + x * x, hy * hy == 1 + y * y]
+    for p in paths:
+        cl = []; calls = p.mem.get('!calls', []); cond = list(p.cond)
+        if which == 'Datan':
+            if len(calls) == 0: cl.append(('x = y: the derivative 1/(1+x^2)', z3.Implies(x == y, p.ret * (1 + x * x) == 1)))
+            elif len(calls) == 1:
+                cl += [('addition formula used only where it is valid (x y > -1)', x * y > -1), ('argument of the addition formula', calls[0][1] * (1 + x * y) == y - x),
+                       ('quotient by y - x', p.ret * (y - x) == ex.UF('atan', 1)(calls[0][1]))]
+            else: cl.append(('plain divided difference (atan y - atan x)/(y - x)', p.ret * (y - x) == ex.UF('atan', 1)(y) - ex.UF('atan', 1)(x)))
+        elif which == 'Dasinh':
+            if len(calls) == 0: cl.append(('x = y: the derivative 1/hypot(1,x)', z3.Implies(z3.And(x == y, *hyp), p.ret * hx == 1)))
+            elif len(calls) == 1:
+                cl += [('argument is y hypot(1,x) - x hypot(1,y) (addition theorem of asinh, valid everywhere)', z3.Implies(z3.And(*hyp), calls[0][1] == y * hx - x * hy)),
+                       ('quotient by y - x', p.ret * (y - x) == ex.UF('asinh', 1)(calls[0][1]))]
+            else: cl.append(('plain divided difference', p.ret * (y - x) == ex.UF('asinh', 1)(y) - ex.UF('asinh', 1)(x)))
+        else:
+            cl.append(('Dsn (y - x) = y/hypot(1,y) - x/hypot(1,x), and the derivative for x = y', z3.Implies(z3.And(*hyp), z3.If(x == y, p.ret * hx * hx * hx == 1, p.ret * (y - x) == y / hy - x / hx))))
+        for nm, c in cl:
+            ncl += 1
+            st, model, dt = rsym.prove(c, cond, timeout_ms=60000); q += 1; ss += dt
+            if st == 'sat' and bad is None: bad = {'kind': 'divdiff', 'fn': which, 'claim': nm, 'x': str(rsym.model_value(model, x)), 'y': str(rsym.model_value(model, y))}
+            elif st == 'unknown': unk.append(nm)
+    r = {'queries': q, 'nontrivial': q, 'solver_s': round(ss, 3), 'functions': ['GeographicLib::DAuxLatitude::' + which], 'bounds': {'x, y': 'all finite reals', 'paths': len(paths), 'claims': ncl}}
+    if bad: r.update({'verdict': 'violated', 'detail': 'DAuxLatitude::%s: "%s" refuted at x = %s, y = %s' % (which, bad['claim'], bad['x'], bad['y']), 'cex': bad})
+    elif unk: r.update({'verdict': 'inconclusive', 'detail': 'unknown: %r' % unk})
+    elif ncl == 0: r.update({'verdict': 'inconclusive', 'detail': 'no claims'})
+    else: r['verdict'] = 'proved'
+    return r
+
+def replay_divdiff(cex):
+    import ctypes, math
+    from fractions import Fraction
+    lib = H.native({}, WD); f = getattr(lib, 'vf_' + cex['fn'].lower()); f.restype = ctypes.c_double; f.argtypes = [ctypes.c_double] * 2
+    g = {'Datan': math.atan, 'Dasinh': math.asinh, 'Dsn': lambda t: t / math.hypot(1, t)}[cex['fn']]
+    pts = []
+    try: pts.append((float(Fraction(cex['x'])), float(Fraction(cex['y'])))) 
+    except Exception: pass
+    pts += [(-1.0, 1.5), (-2.0, 0.9), (-0.7, 2.0), (-3.0, 0.5), (0.3, 0.4), (2.0, 5.0), (-1.25, 1.25)]
+    worst = (0, None)
+    for a, b in pts:
+        if a == b: continue
+        got = f(a, b); want = (g(b) - g(a)) / (b - a); d = abs(got - want)
+        if d > worst[0]: worst = (d, (a, b, got, want))
+    bad = worst[0] > 1e-9
+    return bad, 'DAuxLatitude::%s on the real code: largest deviation from the divided difference over the counterexample and 7 ordinary pairs is %.3g%s' % (cex['fn'], worst[0], (' at (x, y) = (%g, %g): returns %.12g, divided difference %.12g' % worst[1]) if worst[1] else '')
+
 def obligations(ctx):
     return [Ob('Q1.area-table', ob_area, '[REAL]', 'E2 rsym+z3', 'Rhumb::AreaCoeffs (series branch): the 6 Fourier coefficients of the rhumb area integrand (21-entry table) equal the truncated order-8 series, as polynomials in n',
-               timeout=300, bounds={'order': 6, 'n': '(-1,1)'})]
+               timeout=300, bounds={'order': 6, 'n': '(-1,1)'})] + [
+        Ob('Q2.divided-difference.%s' % w, (lambda ctx, w=w: ob_divdiff(ctx, w)), '[REAL]', 'E2 rsym+z3', 'DAuxLatitude::%s: every branch equals the divided difference (f(y) - f(x))/(y - x) it stands for (derivative for x = y); addition formulas only where valid' % w, timeout=300) for w in ('Datan', 'Dasinh')]
 
 def replay(rp):
+    if rp['cex'].get('kind') == 'divdiff': return replay_divdiff(rp['cex'])
     return polyid.replay(rp)
 
 MANIFEST = {
